@@ -62,6 +62,8 @@ type Options struct {
 	SymContent bool // file bytes (and length)
 	SymDst     bool // destination spelling
 	SymType    bool // file / config / config|noreplace / config|missingok
+	NoPkgTime  bool // the package mtime is not configured (zero): entries take their source's mtime
+	SubSecond  bool // the on-disk mtime of source files has a fractional part (0, .5 s, .999999999 s)
 	Second     int  // 0 none, 1 declared dir, 2 symlink, 3 second file, 4 rpm ghost, 5..8 rpm doc/licence/license/readme,
 	// 9 tree, 10 directory source (glob), 11 on-disk symlink source; -1 symbolic choice of 1..3, -2 of 1..4, -3 of 4..8, -4 of 9..11
 }
@@ -94,6 +96,9 @@ func name2(sym bool, name, def string) string {
 func Payload(o Options) *Scenario {
 	sc := &Scenario{}
 	sc.MTime = tm(o.SymTimes || o.SymPkgTime, "pkg.mtime", 1700000000)
+	if o.NoPkgTime {
+		sc.MTime = time.Time{}
+	}
 	sc.Umask = fs.FileMode(u32(o.SymModes, "umask", 0o022))
 	info := &nfpm.Info{Name: "pkg", Arch: "amd64", Platform: "linux", Version: "1.2.3", Description: "d", Maintainer: "m <m@x>", MTime: sc.MTime}
 	info.Umask = sc.Umask
@@ -107,6 +112,10 @@ func Payload(o Options) *Scenario {
 	statMode := fs.FileMode(u32(o.SymModes, "f1.statmode", 0o644))
 	zz.Assume(statMode&^ChmodBits == 0)
 	statTime := tm(o.SymTimes, "f1.stattime", 1600000000)
+	if o.SubSecond {
+		// file systems keep nanoseconds; archive headers keep seconds
+		statTime = statTime.Add(time.Duration([]int64{0, 500000000, 999999999}[zz.NondetChoice("f1.statnanos", 3)]))
+	}
 	src := models.AddFile("/src/f1", content, statMode, statTime)
 	typ := files.TypeFile
 	if o.SymType {
@@ -168,7 +177,7 @@ func Payload(o Options) *Scenario {
 			owner = zz.NondetStringN("e2.owner", 1)
 			zz.Assume(zz.AllIn(owner, "a-z"))
 		}
-		info.Contents = append(info.Contents, &files.Content{Destination: "/xx/dir", Type: files.TypeDir,
+		info.Contents = append(info.Contents, &files.Content{Destination: spell(o.SymDst, "e2", "/xx/dir"), Type: files.TypeDir,
 			FileInfo: &files.ContentFileInfo{Mode: m, Owner: owner}})
 		sc.Wants = append(sc.Wants, parent,
 			Want{Path: "/xx/dir", Kind: 'd', Type: files.TypeDir, Mode: m, Owner: owner, Group: "root", MTime: sc.MTime})
@@ -180,7 +189,7 @@ func Payload(o Options) *Scenario {
 			target = "../" + zz.NondetStringRange("e2.target", 1, 3)
 			zz.Assume(zz.AllIn(target[3:], "a-z"))
 		}
-		info.Contents = append(info.Contents, &files.Content{Source: target, Destination: "/xx/link", Type: files.TypeSymlink})
+		info.Contents = append(info.Contents, &files.Content{Source: target, Destination: spell(o.SymDst, "e2", "/xx/link"), Type: files.TypeSymlink})
 		sc.Wants = append(sc.Wants, parent,
 			Want{Path: "/xx/link", Kind: 'l', Type: files.TypeSymlink, Link: target, Owner: "root", Group: "root", MTime: sc.MTime})
 	case 3: // second regular file without file_info, empty content allowed
@@ -227,18 +236,39 @@ func Payload(o Options) *Scenario {
 	case 11: // a source that is a symlink on disk is shipped as a symlink
 		mtT := tm(false, "", 1500000000)
 		models.AddFile("/src/real", []byte("R"), 0o644, mtT)
-		l := models.AddSymlink("/src/lnk", "real", mtT)
+		// the link text on disk is shipped as it is, clean or not ("./real" is the usual soname style)
+		ltext := []string{"real", "./real"}[zz.NondetChoice("e2.linktext", 2)]
+		l := models.AddSymlink("/src/lnk", ltext, mtT)
 		info.Contents = append(info.Contents, &files.Content{Source: l, Destination: "/xx/lnk"})
 		sc.Wants = append(sc.Wants, parent,
-			Want{Path: "/xx/lnk", Kind: 'l', Type: files.TypeSymlink, Link: "real", Owner: "root", Group: "root", MTime: sc.MTime})
+			Want{Path: "/xx/lnk", Kind: 'l', Type: files.TypeSymlink, Link: ltext, Owner: "root", Group: "root", MTime: sc.MTime})
 	case 4: // rpm ghost
 		parent.OnlyRPM = true
-		info.Contents = append(info.Contents, &files.Content{Destination: "/xx/ghost", Type: files.TypeRPMGhost})
+		info.Contents = append(info.Contents, &files.Content{Destination: spell(o.SymDst, "e2", "/xx/ghost"), Type: files.TypeRPMGhost})
 		sc.Wants = append(sc.Wants, parent,
 			Want{Path: "/xx/ghost", Kind: 'g', Type: files.TypeRPMGhost, Mode: 0o644, Owner: "root", Group: "root", MTime: sc.MTime, OnlyRPM: true})
 	}
 	sc.Info = info
 	return sc
+}
+
+// spell returns one of the spellings of a clean absolute destination that
+// nfpm normalises: as is, relative, through '..', with a duplicate slash, with '.'.
+func spell(sym bool, name, canon string) string {
+	if !sym {
+		return canon
+	}
+	switch zz.NondetChoice(name+".spelling", 5) {
+	case 1:
+		return canon[1:]
+	case 2:
+		return "/zz/.." + canon
+	case 3:
+		return "/" + canon
+	case 4:
+		return "/." + canon
+	}
+	return canon
 }
 
 // UnixMode is the permission word a package stores for a Go file mode: the nine
